@@ -561,18 +561,8 @@ static StepResult do_op(V *roots, const std::vector<std::string> &t, std::string
     } else if (op == "typ" && t.size() == 3 && parse_loc(t[1], l)) {
         V             *tv = vivify(roots, l);
         const unsigned k  = (unsigned)strtoul(t[2].c_str(), nullptr, 10);
-        bool           zero;
-        switch (tv->Type()) {
-            case ValueType::Undefined:
-            case ValueType::True:
-            case ValueType::False:
-            case ValueType::Null: zero = true; break;
-            case ValueType::UIntLong: zero = (tv->GetUInt64() == 0); break;
-            case ValueType::IntLong: zero = (tv->GetInt64() == 0); break;
-            case ValueType::Double: zero = (dbits(tv->GetDouble()) == 0); break;
-            default: zero = false;
-        }
-        if (zero && k != 1 && k <= 10) *tv = ValueType(k);
+        // the bare operator, whatever the target holds (ValuePtr would leave a null pointer: not driven)
+        if (k != 1 && k <= 10) *tv = ValueType(k);
     } else if ((op == "cpy" || op == "mov") && two(4)) {
         if (l.root == s.root) {
             if (l.path.empty() && s.path.empty()) {
